@@ -318,6 +318,28 @@ func exhScenarios() []*scen {
 			}
 		}
 	}
+	// a hit that is still on its way out (parked in a middleware in front of the cache, after the
+	// cache has returned) while other requests refresh the entry of the same key: by no-cache,
+	// by invalidation, with a body of the same and of a different length
+	for _, vs := range []bool{false, true} {
+		for _, kind := range []string{"nocache", "inv"} {
+			for _, nw := range []int{2, 3} {
+				cf := conf{Exp: 5, MaxBytes: 4000, VStore: vs, KeyGen: 1, StoreHdr: true, Inv: kind == "inv"}
+				sc := &scen{Cf: cf, Mask: []string{"afterCache", "handler"}}
+				sc.Name = fmt.Sprintf("exh/%s/%dw/hit-in-flight-%s", cf.backend(), nw, kind)
+				sc.Seeds = []rq{{Method: "GET", Key: "A", Status: 200, Size: 400}}
+				sc.Workers = []rq{{Method: "GET", Key: "A", Status: 200, Size: 300}}
+				for i, size := range []int{400, 150}[:nw-1] {
+					w := rq{Method: "GET", Key: "A", Status: 200, Size: size, NoCache: kind == "nocache", Inv: kind == "inv"}
+					if i == 1 {
+						w.Enc = true
+					}
+					sc.Workers = append(sc.Workers, w)
+				}
+				out = append(out, sc)
+			}
+		}
+	}
 	return out
 }
 
@@ -395,7 +417,7 @@ func genScen(r *gen.Rand) *scen {
 		sc.Workers = append(sc.Workers, w)
 	}
 	sc.Mask = []string{"cache.afterGet"}
-	for _, p := range []string{"handler", "KeyGenerator", "CacheInvalidator", "Next", "ExpirationGenerator"} {
+	for _, p := range []string{"handler", "KeyGenerator", "CacheInvalidator", "Next", "ExpirationGenerator", "afterCache"} {
 		if r.Chance(1, 2) {
 			sc.Mask = append(sc.Mask, p)
 		}
